@@ -2,7 +2,9 @@
 //! One sub-command per property plus worker modes; see /verif/DESIGN.md.
 mod c01;
 mod c03;
+mod c06;
 mod c08;
+mod c10;
 mod exec;
 mod fileck;
 mod gen;
@@ -70,8 +72,10 @@ fn main() {
         "C01" => c01::run(&ctx, c01::Mode::C01),
         "C03" => c03::run(&ctx),
         "C05" => c01::run(&ctx, c01::Mode::C05),
+        "C06" => c06::run(&ctx),
         "C07" => c01::run(&ctx, c01::Mode::C07),
         "C08" => c08::run(&ctx),
+        "C10" => c10::run(&ctx),
         _ => usage(),
     };
     shard.write(&ctx.out);
